@@ -294,6 +294,23 @@ fn mk_rrset(t: u16, id: u32) -> SharedRrset {
     SharedRrset::new(rs)
 }
 /// the RRset number of a set of (ttl, data value) records of type `t`, if it is one
+/// the records as the model driver prints an RRset: `<ttl>[v1,v2,..]`, values ascending;
+/// records of one RRset with different TTLs are shown as `?ttl..`
+fn fmt_recs(recs: &[(u32, u32)]) -> String {
+    let mut vals: Vec<u32> = recs.iter().map(|r| r.1).collect();
+    vals.sort();
+    let ttl = recs.first().map_or(3600, |r| r.0);
+    if recs.iter().any(|r| r.0 != ttl) { return format!("?ttl{:?}", recs); }
+    format!("{}[{}]", ttl, vals.iter().map(|v| v.to_string()).collect::<Vec<_>>().join(","))
+}
+/// RRset number `id` of type `t` in that notation
+fn fmt_rr(t: u16, id: u32) -> String {
+    if id == 0 && t != T_SOA { return "3600[]".into(); }
+    if t == T_SOA || t == T_CNAME { return format!("3600[{}]", id); }
+    format!("{}[{}]", rr_ttl(t, id), (0..rr_count(id)).map(|j| (4 * id + j).to_string()).collect::<Vec<_>>().join(","))
+}
+fn fmt_opt(t: u16, x: &Option<u32>) -> String { x.map_or("-".to_string(), |x| fmt_rr(t, x)) }
+#[allow(dead_code)]
 fn rr_decode(t: u16, recs: &[(u32, u32)]) -> Option<u32> {
     if recs.is_empty() { return None; }
     if t == T_SOA || t == T_CNAME { return if recs.len() == 1 && recs[0].0 == 3600 { Some(recs[0].1) } else { None }; }
@@ -338,7 +355,7 @@ fn data_id<N: ToName>(d: &ZoneRecordData<Bytes, N>) -> u32 {
 /// X(soa) NXDOMAIN, N(soa) NODATA, D<id> data, Y some RRset (ANY), C<id> CNAME,
 /// R<ns>(ds)(glue) referral.  The second component is the (type, id) of the RRset an
 /// ANY query returned.
-fn observe_full(rd: &dyn ReadableZone, name: &Nm, t: u16) -> (String, Option<(u16, u32)>) {
+fn observe_full(rd: &dyn ReadableZone, name: &Nm, t: u16) -> (String, Option<(u16, String)>) {
     let qname = name.abs();
     let rt = Rtype::from_int(t);
     let ans = match rd.query(qname.clone(), rt) { Ok(a) => a, Err(_) => return ("OutOfZone".into(), None) };
@@ -351,48 +368,46 @@ fn observe_full(rd: &dyn ReadableZone, name: &Nm, t: u16) -> (String, Option<(u1
         let r = r.unwrap();
         an.push((r.rtype().to_int(), r.ttl().as_secs(), data_id(r.data())));
     }
-    let opt = |x: Option<u32>| x.map_or("-".to_string(), |x| x.to_string());
-    let (mut soa, mut other_auth) = (None, 0);
+    let (mut soa, mut other_auth): (Option<String>, u32) = (None, 0);
     let (mut ns_recs, mut ds_recs, mut glue_recs): (Vec<(u32, u32)>, Vec<(u32, u32)>, Vec<(u32, u32)>) = (vec![], vec![], vec![]);
     for r in msg.authority().unwrap().limit_to::<ZoneRecordData<_, ParsedName<_>>>() {
         let r = r.unwrap();
-        match r.rtype() { Rtype::SOA => soa = Some(data_id(r.data())), Rtype::NS => ns_recs.push((r.ttl().as_secs(), data_id(r.data()))), Rtype::DS => ds_recs.push((r.ttl().as_secs(), data_id(r.data()))), _ => other_auth += 1 }
+        match r.rtype() {
+            Rtype::SOA => { if soa.is_some() { other_auth += 1; } soa = Some(format!("{}:{}", r.ttl().as_secs(), data_id(r.data()))); }
+            Rtype::NS => ns_recs.push((r.ttl().as_secs(), data_id(r.data()))), Rtype::DS => ds_recs.push((r.ttl().as_secs(), data_id(r.data()))), _ => other_auth += 1 }
     }
     let mut other_add = 0;
     for r in msg.additional().unwrap().limit_to::<ZoneRecordData<_, ParsedName<_>>>() {
         let r = r.unwrap();
         if r.rtype() == Rtype::A { glue_recs.push((r.ttl().as_secs(), data_id(r.data()))); } else { other_add += 1; }
     }
+    let opt = |x: &Option<String>| x.clone().unwrap_or_else(|| "-".to_string());
+    let sect = |v: &Vec<(u32, u32)>| if v.is_empty() { "-".to_string() } else { fmt_recs(v) };
     let rc = ans.rcode();
     if other_auth > 0 || other_add > 0 { return (format!("?sections{}/{}", other_auth, other_add), None); }
     if !ns_recs.is_empty() {
-        let ns = rr_decode(T_NS, &ns_recs);
-        let ds = if ds_recs.is_empty() { Some(None) } else { rr_decode(T_DS, &ds_recs).map(Some) };
-        let glue = if glue_recs.is_empty() { Some(None) } else { rr_decode(T_A, &glue_recs).map(Some) };
-        if let (Some(ns), Some(ds), Some(glue)) = (ns, ds, glue) {
-            if rc == Rcode::NOERROR && an.is_empty() && soa.is_none() { return (format!("R{}({})({})", ns, opt(ds), opt(glue)), None); }
-        }
+        if rc == Rcode::NOERROR && an.is_empty() && soa.is_none() { return (format!("R{}({})({})", fmt_recs(&ns_recs), sect(&ds_recs), sect(&glue_recs)), None); }
         return ("?referral".into(), None);
     }
     if !ds_recs.is_empty() || !glue_recs.is_empty() { return ("?stray".into(), None); }
-    if rc == Rcode::NXDOMAIN && an.is_empty() { return (format!("X({})", opt(soa)), None); }
+    if rc == Rcode::NXDOMAIN && an.is_empty() { return (format!("X({})", opt(&soa)), None); }
     if rc != Rcode::NOERROR { return (format!("?rcode{}", rc.to_int()), None); }
-    if an.is_empty() { return (format!("N({})", opt(soa)), None); }
+    if an.is_empty() { return (format!("N({})", opt(&soa)), None); }
     if soa.is_some() { return ("?soa_with_answer".into(), None); }
     let at = an[0].0;
     if an.iter().any(|r| r.0 != at) { return (format!("?mixed{:?}", an), None); }
     let recs: Vec<(u32, u32)> = an.iter().map(|r| (r.1, r.2)).collect();
-    let id = match rr_decode(at, &recs) { Some(id) => id, None => return (format!("?rrset{:?}", an), None) };
-    if at == T_CNAME { return (format!("C{}", id), None); }
-    if t == T_ANY { return ("Y".into(), Some((at, id))); }
-    if at == t { return (format!("D{}", id), None); }
+    let raw = fmt_recs(&recs);
+    if at == T_CNAME { return (format!("C{}", raw), None); }
+    if t == T_ANY { return ("Y".into(), Some((at, raw))); }
+    if at == t { return (format!("D{}", raw), None); }
     (format!("?answer{:?}", an), None)
 }
 fn observe(rd: &dyn ReadableZone, name: &Nm, t: u16) -> String { observe_full(rd, name, t).0 }
 
 /// sorted (owner word, type, id) triples of a walk
-fn walk_of(rd: &dyn ReadableZone) -> Vec<(String, u16, u32)> {
-    let acc: Arc<Mutex<Vec<(String, u16, u32)>>> = Arc::new(Mutex::new(vec![]));
+fn walk_of(rd: &dyn ReadableZone) -> Vec<(String, u16, String)> {
+    let acc: Arc<Mutex<Vec<(String, u16, String)>>> = Arc::new(Mutex::new(vec![]));
     let acc2 = acc.clone();
     let apex_n = apex();
     rd.walk(Box::new(move |owner: Name<Bytes>, rrset: &SharedRrset, _cut: bool| {
@@ -401,7 +416,7 @@ fn walk_of(rd: &dyn ReadableZone) -> Vec<(String, u16, u32)> {
         let t = rrset.rtype().to_int();
         let recs: Vec<(u32, u32)> = rrset.data().iter().map(|d| (rrset.ttl().as_secs(), data_id(d))).collect();
         // an RRset that does not decode is reported as number u32::MAX
-        a.push((rel.clone(), t, rr_decode(t, &recs).unwrap_or(u32::MAX)));
+        a.push((rel.clone(), t, fmt_recs(&recs)));
     }));
     let mut v = acc.lock().unwrap().clone();
     v.sort();
@@ -418,7 +433,7 @@ fn rel_of(owner: &Name<Bytes>, apex_n: &Name<Bytes>) -> String {
     ls.reverse();
     ls.join(".")
 }
-fn show_walk(w: &[(String, u16, u32)]) -> String { format!("W[{}]", w.iter().map(|(o, t, id)| format!("{}/{}/{}", o, t, id)).collect::<Vec<_>>().join(",")) }
+fn show_walk(w: &[(String, u16, String)]) -> String { format!("W[{}]", w.iter().map(|(o, t, rr)| format!("{}/{}/{}", o, t, rr)).collect::<Vec<_>>().join(" ")) }
 
 // ---------------------------------------------------------------- traces
 
@@ -481,13 +496,13 @@ impl Content {
     }
     fn under_cut(&self, n: &Nm) -> bool { n.proper_prefixes().iter().any(|p| matches!(self.sp.get(p), Some(Sp::Cut(..)))) }
     /// the records a walk must report: everything not below a zone cut
-    fn walk(&self) -> Vec<(String, u16, u32)> {
-        let mut v: Vec<(String, u16, u32)> = self.rr.iter().filter(|((n, _), _)| !self.under_cut(n)).map(|((n, t), rr)| (n.word(), *t, *rr)).collect();
+    fn walk(&self) -> Vec<(String, u16, String)> {
+        let mut v: Vec<(String, u16, String)> = self.rr.iter().filter(|((n, _), _)| !self.under_cut(n)).map(|((n, t), rr)| (n.word(), *t, fmt_rr(*t, *rr))).collect();
         for (n, sp) in &self.sp {
             if self.under_cut(n) { continue; }
             match sp {
-                Sp::Cname(id) => v.push((n.word(), T_CNAME, *id)),
-                Sp::Cut(ns, ds, g) => { v.push((n.word(), T_NS, *ns)); if let Some(d) = ds { v.push((n.word(), T_DS, *d)); } if let Some(g) = g { v.push((n.word(), T_A, *g)); } }
+                Sp::Cname(id) => v.push((n.word(), T_CNAME, fmt_rr(T_CNAME, *id))),
+                Sp::Cut(ns, ds, g) => { v.push((n.word(), T_NS, fmt_rr(T_NS, *ns))); if let Some(d) = ds { v.push((n.word(), T_DS, fmt_rr(T_DS, *d))); } if let Some(g) = g { v.push((n.word(), T_A, fmt_rr(T_A, *g))); } }
             }
         }
         v.sort();
@@ -509,7 +524,7 @@ fn stored_versions(zone: &Zone) -> (Vec<u32>, u32) {
     (vs, cur)
 }
 
-type Snap = (BTreeMap<(Nm, u16), String>, Vec<(String, u16, u32)>);
+type Snap = (BTreeMap<(Nm, u16), String>, Vec<(String, u16, String)>);
 
 struct Held { rd: Box<dyn ReadableZone>, snap: Snap }
 
@@ -565,7 +580,7 @@ impl Sys {
             let (o, which) = observe_full(rd, n, T_ANY);
             if let Some((t, id)) = which {
                 let same = observe(rd, n, t);
-                if same != format!("D{}", id) { fails.push(Fail { step: 0, class: "any_not_in_version", detail: format!("ANY at {} returned type {} id {} but a query for that type answers {}", n.word(), t, id, same) }); }
+                if same != format!("D{}", id) { fails.push(Fail { step: 0, class: "any_not_in_version", detail: format!("ANY at {} returned type {} RRset {} but a query for that type answers {}", n.word(), t, id, same) }); }
             }
             m.insert((n.clone(), T_ANY), o);
         }
@@ -634,9 +649,9 @@ impl Sys {
             for t in &self.types {
                 let o = observe(rd.as_ref(), n, *t);
                 let want = match self.committed.sp.get(n) {
-                    Some(Sp::Cname(id)) => Some(format!("C{}", id)),
-                    Some(Sp::Cut(ns, ds, g)) => Some(if *t == T_DS { match ds { Some(d) => format!("D{}", d), None => "N".into() } } else { format!("R{}({})({})", ns, oword(ds), oword(g)) }),
-                    None => self.committed.rr.get(&(n.clone(), *t)).map(|rr| format!("D{}", rr)),
+                    Some(Sp::Cname(id)) => Some(format!("C{}", fmt_rr(T_CNAME, *id))),
+                    Some(Sp::Cut(ns, ds, g)) => Some(if *t == T_DS { match ds { Some(d) => format!("D{}", fmt_rr(T_DS, *d)), None => "N".into() } } else { format!("R{}({})({})", fmt_rr(T_NS, *ns), fmt_opt(T_DS, ds), fmt_opt(T_A, g)) }),
+                    None => self.committed.rr.get(&(n.clone(), *t)).map(|rr| format!("D{}", fmt_rr(*t, *rr))),
                 };
                 match want {
                     Some(wd) if wd == "N" => if !o.starts_with("N(") { fails.push(Fail { step: 0, class, detail: format!("{}: fresh reader {} type {}: {} expected NODATA", when, n.word(), t, o) }); },
@@ -963,6 +978,12 @@ fn existing_nodes(inits: &[Init]) -> Vec<Nm> {
 
 // ---------------------------------------------------------------- thread stress (supporting only)
 
+/// the RRset number of a complete `D<ttl>[..]` observation of type t (u32::MAX if it is not one)
+fn gen_of(obs: &str, t: u16) -> u32 {
+    let first = obs.find('[').and_then(|p| obs[p + 1..].split(|c| c == ',' || c == ']').next()).and_then(|x| x.parse::<u32>().ok());
+    match first { Some(v) => { let id = if t == T_SOA { v } else { v / 4 }; if obs == format!("D{}", fmt_rr(t, id)) { id } else { u32::MAX } } None => u32::MAX }
+}
+
 /// Real threads, supporting evidence only: 8 reader threads and one writer thread.
 /// The run is count-based (a fixed number of writer sessions, every third one
 /// aborted; readers run until the writer is done), and every 16th session waits -
@@ -1000,8 +1021,8 @@ fn stress(out: &mut Out, sessions: u32) -> String {
                 let first: Vec<String> = names.iter().map(|n| observe(rd.as_ref(), n, T_A)).collect();
                 let soa = observe(rd.as_ref(), &Nm(vec![]), T_SOA);
                 // every name carries the generation of the version; all equal
-                if first.iter().any(|x| x != &first[0]) || soa != first[0] { bad.lock().unwrap().push(format!("torn version: {:?} soa {}", first, soa)); }
-                let g = first[0].strip_prefix('D').and_then(|x| x.parse::<u32>().ok());
+                let g = if first[0].starts_with("D36") { Some(gen_of(&first[0], T_A)) } else { None };
+                if first.iter().any(|x| x != &first[0]) || Some(gen_of(&soa, T_SOA)) != g || !soa.starts_with("D3600[") { bad.lock().unwrap().push(format!("torn version: {:?} soa {}", first, soa)); }
                 match g { Some(g) if g < 1_000_000 => { cov.gens.insert(g); } _ => bad.lock().unwrap().push(format!("aborted or broken generation visible: {}", first[0])) }
                 std::thread::yield_now();
                 let again: Vec<String> = names.iter().rev().map(|n| observe(rd.as_ref(), n, T_A)).collect();
@@ -1094,7 +1115,7 @@ fn main() {
         (vec![COp::Upd(3, 1), COp::Upd(3, 2), COp::Rb(4), COp::Rb(3)], vec![2, 3, 4]),
     ];
     for (ops, probes) in &corpus { idx += 1; if out.wants(idx) { cell_case(&mut out, ops, probes, "cell_corpus"); } }
-    let n_cell = if a.thorough { 60_000 } else { 3_000 } * a.scale;
+    let n_cell = if a.thorough { 60_000 } else { 2_000 } * a.scale;
     for _ in 0..n_cell {
         let base = match r.below(4) { 0 => 0, 1 => 0xFFFF_FFF0u32.wrapping_add(r.below(32) as u32), 2 => 0x7FFF_FFF0u32.wrapping_add(r.below(32) as u32), _ => r.u32() };
         let n_ops = r.range(1, 12) as usize;
@@ -1130,7 +1151,7 @@ fn main() {
             vec![Acquire(0), Commit, Acquire(1), Commit, Acquire(2), Commit, Release(1), Release(2), Clean, Release(0), Clean],
         ];
         for c in &corpus { idx += 1; if out.wants(idx) { versions_case(&mut out, c, "zv_corpus"); } }
-        let n_zv = if a.thorough { 20_000 } else { 800 } * a.scale;
+        let n_zv = if a.thorough { 20_000 } else { 500 } * a.scale;
         for _ in 0..n_zv {
             let n = r.range(3, 25) as usize;
             let ops: Vec<VOp> = (0..n).map(|_| match r.below(10) { 0..=2 => Commit, 3..=5 => Acquire(r.below(4) as u32), 6 | 7 => Release(r.below(4) as u32), _ => Clean }).collect();
@@ -1196,6 +1217,27 @@ fn main() {
             // commit(true) at the end of the serial space: 2^32 - 1 is followed by serial 0, a SOA like any other
             (vec![Init::Rrset(Nm(vec![]), T_SOA, 0xFFFF_FFFF), www.clone()], vec![Ev::Acquire(0), Ev::WAcquire, Ev::CommitBump, Ev::Acquire(1), Ev::Query(1, Nm::flat(0), T_SOA), Ev::Query(1, Nm::flat(3), T_A),
                 Ev::Query(0, Nm::flat(0), T_SOA), Ev::CommitBump, Ev::Acquire(2), Ev::Query(2, Nm::flat(0), T_SOA), Ev::Walk(1), Ev::Walk(2), Ev::Walk(0)]),
+            // the aborted version removes all data of a name (it stops existing there): no marker of that
+            // version stays anywhere, and the next writer reuses the version number below that name
+            (vec![soa.clone(), Init::Rrset(p(&[2, 3]), T_A, 11), Init::Rrset(p(&[2, 3]), T_TXT, 12)],
+                vec![Ev::Acquire(0), Ev::WAcquire, Ev::WOpen, Ev::Remove(p(&[2, 3]), T_A), Ev::Remove(p(&[2, 3]), T_TXT), Ev::RemoveAll, Ev::Dump, Ev::Query(0, p(&[2, 3]), T_A), Ev::Drop, Ev::Dump,
+                     Ev::WAcquire, Ev::WOpen, Ev::Update(p(&[2, 3, 4]), T_TXT, 7), Ev::Dump, Ev::Commit, Ev::Dump, Ev::Acquire(1), Ev::Query(1, p(&[2, 3]), T_A), Ev::Query(1, p(&[2, 3, 4]), T_TXT), Ev::Query(0, p(&[2, 3, 4]), T_TXT), Ev::Walk(1), Ev::Walk(0)]),
+            // update then remove within one version, in the first version of a type and on top of an older value; abort, then the same committed
+            (vec![soa.clone(), www.clone()], vec![Ev::Acquire(0), Ev::WAcquire, Ev::WOpen, Ev::Update(Nm::flat(2), T_A, 31), Ev::Remove(Nm::flat(2), T_A), Ev::Update(Nm::flat(2), T_TXT, 32), Ev::Remove(Nm::flat(2), T_TXT), Ev::Dump,
+                Ev::Update(p(&[4, 5]), T_A, 33), Ev::Remove(p(&[4, 5]), T_A), Ev::Dump, Ev::Drop, Ev::Dump, Ev::WAcquire, Ev::WOpen, Ev::Update(Nm::flat(2), T_A, 34), Ev::Remove(Nm::flat(2), T_A), Ev::Update(Nm::flat(2), T_TXT, 35),
+                Ev::Remove(Nm::flat(2), T_TXT), Ev::Dump, Ev::Commit, Ev::Dump, Ev::Acquire(1), Ev::Query(1, Nm::flat(2), T_A), Ev::Query(1, Nm::flat(2), T_TXT), Ev::Query(0, Nm::flat(2), T_A), Ev::Walk(1), Ev::Walk(0)]),
+            // names two and three labels below a node that exists only in an uncommitted / abandoned / later version,
+            // with a wildcard beside it: the old readers keep the wildcard answer, new ones get the empty non-terminal
+            (vec![soa.clone(), Init::Rrset(p(&[3, 1]), T_A, 41)], vec![Ev::Acquire(0), Ev::Query(0, p(&[3, 4, 2]), T_A), Ev::Query(0, p(&[3, 4]), T_A), Ev::WAcquire, Ev::WOpen, Ev::Update(p(&[3, 4, 2]), T_A, 42),
+                Ev::Query(0, p(&[3, 4, 2]), T_A), Ev::Query(0, p(&[3, 4]), T_A), Ev::Query(0, p(&[3, 4, 5]), T_A), Ev::Drop, Ev::Acquire(1), Ev::Query(1, p(&[3, 4, 2]), T_A), Ev::Query(1, p(&[3, 4]), T_A),
+                Ev::WAcquire, Ev::WOpen, Ev::Update(p(&[3, 4, 2]), T_A, 43), Ev::Update(p(&[3, 4, 1]), T_TXT, 44), Ev::Commit, Ev::Acquire(2), Ev::Query(2, p(&[3, 4, 2]), T_A), Ev::Query(2, p(&[3, 4]), T_A), Ev::Query(2, p(&[3, 4, 5]), T_TXT),
+                Ev::Query(2, p(&[3, 5, 2]), T_A), Ev::Query(1, p(&[3, 4, 2]), T_A), Ev::Query(1, p(&[3, 4, 5]), T_TXT), Ev::Query(0, p(&[3, 4]), T_A), Ev::WOpen, Ev::RemoveAllAt(p(&[3, 4])), Ev::Commit, Ev::Acquire(3),
+                Ev::Query(3, p(&[3, 4, 2]), T_A), Ev::Query(3, p(&[3, 4]), T_A), Ev::Query(2, p(&[3, 4, 2]), T_A), Ev::Walk(3), Ev::Walk(2), Ev::Walk(0)]),
+            // a WriteZone kept after commit and re-opened (as ZoneUpdater does between batches) still holds the lock:
+            // a queued writer and fresh requests stay pending through commit, re-open and the second commit
+            (vec![soa.clone(), www.clone()], vec![Ev::WAcquire, Ev::WQueue, Ev::WOpen, Ev::Update(Nm::flat(2), T_A, 51), Ev::Commit, Ev::WAcquire, Ev::Acquire(0), Ev::WOpen, Ev::WAcquire, Ev::Update(Nm::flat(2), T_A, 52),
+                Ev::Query(0, Nm::flat(2), T_A), Ev::CommitBump, Ev::WAcquire, Ev::Acquire(1), Ev::Query(1, Nm::flat(2), T_A), Ev::Dump, Ev::Drop, Ev::WTake, Ev::WOpen, Ev::Update(Nm::flat(2), T_A, 53), Ev::Dump,
+                Ev::Query(1, Nm::flat(2), T_A), Ev::Commit, Ev::Acquire(2), Ev::Query(2, Nm::flat(2), T_A), Ev::Query(2, Nm::flat(0), T_SOA), Ev::Dump]),
             // ANY
             (vec![soa.clone(), www.clone(), Init::Rrset(Nm::flat(2), T_TXT, 12)], vec![Ev::Acquire(0), Ev::Query(0, Nm::flat(2), T_ANY), Ev::Query(0, Nm::flat(3), T_ANY), Ev::Query(0, Nm::flat(0), T_ANY),
                 Ev::WAcquire, Ev::WOpen, Ev::Remove(Nm::flat(2), T_A), Ev::Remove(Nm::flat(2), T_TXT), Ev::Update(Nm::flat(3), T_AAAA, 13), Ev::Query(0, Nm::flat(2), T_ANY), Ev::Commit, Ev::Acquire(1),
@@ -1204,7 +1246,7 @@ fn main() {
         for (i, e) in &traces { idx += 1; if out.wants(idx) { run_trace(&mut out, i, e, names.clone(), "zt_corpus"); } }
     }
     // flat zones (apex, wildcard, four children)
-    let n_tr = if a.thorough { 15_000 } else { 450 } * a.scale;
+    let n_tr = if a.thorough { 15_000 } else { 330 } * a.scale;
     for k in 0..n_tr {
         let inits = gen_inits(&mut r, &flat_names[..5], 4);
         // two thirds of the traces only touch names that have a node already
@@ -1215,7 +1257,7 @@ fn main() {
         if out.wants(idx) { run_trace(&mut out, &inits, &evs, flat_names.clone(), if create_ok { "zt_flat_create" } else { "zt_flat" }); }
     }
     // trees: names up to three labels below the apex
-    let n_deep = if a.thorough { 20_000 } else { 600 } * a.scale;
+    let n_deep = if a.thorough { 20_000 } else { 450 } * a.scale;
     for k in 0..n_deep {
         let inits = gen_inits(&mut r, &names[..9], 3);
         let create_ok = k % 3 != 1;
@@ -1223,6 +1265,16 @@ fn main() {
         let evs = gen_trace(&mut r, &names, &targets, if a.thorough { 40 } else { 30 }, false);
         idx += 1;
         if out.wants(idx) { run_trace(&mut out, &inits, &evs, names.clone(), if create_ok { "zt_tree_create" } else { "zt_tree" }); }
+    }
+    // nodes that exist only in some versions, wildcards at every level, names up to three labels deep
+    let ghost_names: Vec<Nm> = vec![p(&[]), p(&[1]), p(&[3]), p(&[3, 1]), p(&[3, 4]), p(&[3, 4, 1]), p(&[3, 4, 2]), p(&[3, 4, 5]), p(&[3, 5, 2]), p(&[2, 4, 2])];
+    let n_ghost = if a.thorough { 10_000 } else { 300 } * a.scale;
+    for _ in 0..n_ghost {
+        // sparse initial content so that most nodes start out absent
+        let inits = gen_inits(&mut r, &ghost_names[..7], 1);
+        let evs = gen_trace(&mut r, &ghost_names, &ghost_names, 34, false);
+        idx += 1;
+        if out.wants(idx) { run_trace(&mut out, &inits, &evs, ghost_names.clone(), "zt_ghost"); }
     }
     // the same with diff recording switched on: it must not change what any version contains
     let n_diff = if a.thorough { 5_000 } else { 200 } * a.scale;
